@@ -10,7 +10,7 @@ from typing import Any, Dict, List, Optional
 import httpx
 
 from vf.http_harness import ScriptedHTTP, TimedByteStream
-from vf.ref import norm_any, tagged
+from vf.ref import strict_eq, norm_any, tagged
 from vf.vloop import run_virtual, HangDetected
 
 ID = "C12"
@@ -282,7 +282,7 @@ def twin_case(case: Dict[str, Any]) -> Dict[str, Any]:
 async def scenario(case: Dict[str, Any], srv: Server, obs: Dict[str, Any]):
     from chuk_mcp.transports.sse.sse_client import sse_client
     from chuk_mcp.transports.sse.parameters import SSEParameters
-    from chuk_mcp.protocol.messages.json_rpc_message import create_request
+    from chuk_mcp.protocol.messages.json_rpc_message import create_request, JSONRPCRequest
 
     loop = asyncio.get_running_loop()
     params = SSEParameters(url=srv.base, timeout=TIMEOUT)
@@ -302,8 +302,12 @@ async def scenario(case: Dict[str, Any], srv: Server, obs: Dict[str, Any]):
                     pass
             dt = asyncio.create_task(drain(), name="vf-drain")
             try:
-                for req in case.get("requests", []):
-                    msg = create_request("tools/call", {"name": "t", "arguments": {"x": TEXT}}, id=req["id"])
+                for k_req, req in enumerate(case.get("requests", [])):
+                    if k_req % 2:
+                        # the envelope class instantiated directly, relying on its declared defaults
+                        msg = JSONRPCRequest(id=req["id"], method="tools/call", params={"name": "t", "arguments": {"x": TEXT}})
+                    else:
+                        msg = create_request("tools/call", {"name": "t", "arguments": {"x": TEXT}}, id=req["id"])
                     await write.send(msg)
                     if case["exit"] == "exception_in_flight":
                         await asyncio.sleep(0.01)
@@ -467,6 +471,10 @@ def exec_case(ctx, case: Dict[str, Any]) -> None:
                     ctx.violation("post_count", f"request {rid!r} produced {len(posts)} POSTs", case)
                 elif obs["expected_post_url"] and posts[0]["url"] != obs["expected_post_url"]:
                     ctx.violation("post_url", f"POST went to {posts[0]['url']!r}, announced {obs['expected_post_url']!r}", case)
+                if len(posts) == 1:
+                    want_body = {"jsonrpc": "2.0", "id": rid, "method": "tools/call", "params": {"name": "t", "arguments": {"x": TEXT}}}
+                    if not strict_eq(posts[0]["body"], want_body):
+                        ctx.violation("post_body_differs", f"POST body {posts[0]['body']!r} is not the message {want_body!r}", case)
             if case["exit"] != "normal":
                 continue
             msgs = [norm_any(m) for _, m in obs["got"]]
